@@ -13,7 +13,7 @@ RULE = ('random scripted sessions (spot/futures, 1-2 symbols, trading timeframes
 ASSUMPTIONS = ['the polyline O-L-H-C / O-H-L-C of the open-normalised minute candle is the reference intra-minute path',
                'fast simulator: the same polyline oracle minute by minute inside each chunk, plus per-chunk range checks',
                'minutes in which a session aborted with an exception are not judged']
-MIN_OBS = {'fast_minute_end_evals': 5000, 'resting_fills': 500, 'resting_fills_fast': 100, 'fills_at_candle_extreme_or_open_close': 30,
+MIN_OBS = {'orders_submitted_from_on_cancel': 20, 'orders_submitted_from_on_close_position': 200, 'fast_minute_end_evals': 5000, 'resting_fills': 500, 'resting_fills_fast': 100, 'fills_at_candle_extreme_or_open_close': 30,
            'fills_inside_gap': 20, 'market_fills': 100, 'minute_end_evals_with_resting': 1000, 'chunk_end_evals': 500}
 
 
@@ -35,7 +35,8 @@ def run_job(job):
         # the callback of every closing fill places a fresh resting order through the broker close to the fill price: the rest
         # of that minute / chunk often reaches it (the order books of the symbol have just been reset by the strategy layer)
         for r in spec['routes']:
-            r['script'].update(on_close_broker=True, on_close_broker_dist=rng.choice([0.0007, 0.0015, 0.003]),
+            r['script'].update(on_close_broker=True, on_cancel_broker=0.5, cancel_policy='rnd',
+                               on_close_broker_dist=rng.choice([0.0007, 0.0015, 0.003]),
                                sl=r['script'].get('sl') or 0.004, tp=r['script'].get('tp') or 0.004, p_enter=0.3)
     out = session.run_session(spec)
     if cb:
@@ -44,6 +45,7 @@ def run_job(job):
                               aborted=out['error'] is not None)
     cnt['sessions'] = 1
     if cb:
+        cnt['orders_submitted_from_on_cancel'] = sum(1 for e in out['events'] if e['k'] == 'note' and e.get('what') == 'order_from_on_cancel')
         cnt['orders_submitted_from_on_close_position'] = n_cb
         cnt['fills_of_orders_submitted_from_on_close_position'] = len(
             {e['o'] for e in out['events'] if e['k'] == 'exec_ret' and e.get('status') == 'EXECUTED'} &
